@@ -18,6 +18,23 @@ use serde::{Deserialize, Serialize};
 use serde_json::{json, Value};
 use std::collections::{BTreeMap, BTreeSet};
 
+pub const PROBE_NAMES: [(u8, &str); 77] = [
+    (1, "zig.norm.fast"), (2, "zig.norm.tail"), (3, "zig.norm.wedge_accept"), (4, "zig.norm.wedge_reject"),
+    (5, "zig.exp.fast"), (6, "zig.exp.tail"), (7, "zig.exp.wedge_accept"), (8, "zig.exp.wedge_reject"),
+    (9, "normal.tail_loop"), (10, "gamma.v<=0_retry"), (11, "gamma.accept"), (13, "gamma.reject"), (14, "gamma.small_shape"),
+    (15, "beta.BB.step2"), (16, "beta.BB.step3"), (17, "beta.BB.step4"), (18, "beta.BB.reject"),
+    (19, "beta.BC.step2_reject"), (20, "beta.BC.step3_accept"), (21, "beta.BC.step4_reject"), (22, "beta.BC.step5_accept"), (23, "beta.BC.step5_reject"), (24, "beta.w_inf_guard"),
+    (25, "binv.restart"), (26, "btpe.region1"), (27, "btpe.region2_reject"), (28, "btpe.region2"), (29, "btpe.region3_reject"), (30, "btpe.region3"), (31, "btpe.region4_reject"), (32, "btpe.region4"),
+    (33, "btpe.step5.1"), (34, "btpe.squeeze_accept"), (35, "btpe.squeeze_reject"), (36, "btpe.step5.3_reject"), (37, "btpe.step5.3_accept"),
+    (38, "poisson.stepI"), (39, "poisson.stepS"), (40, "poisson.stepQ"), (41, "poisson.stepE"), (42, "poisson.stepH_accept"), (44, "poisson.f.k<10"), (45, "poisson.f.series"), (46, "poisson.f.log"),
+    (47, "hin.step"), (48, "h2pe.region1"), (49, "h2pe.region2_accept"), (50, "h2pe.region2"), (51, "h2pe.region3_accept"), (52, "h2pe.region3"),
+    (53, "h2pe.step4.1"), (54, "h2pe.step4.1_accept"), (55, "h2pe.step4.2_reject"), (56, "h2pe.step4.2_accept"), (57, "h2pe.step4.3_accept"), (58, "h2pe.step4.3"),
+    (59, "geometric.trivial"), (60, "geometric.p_tiny_max"), (61, "geometric.d_loop"), (62, "geometric.m_accept"), (63, "geometric.powf"),
+    (64, "zipf.accept"), (65, "zipf.x>1"), (66, "zeta.inf_return"), (67, "zeta.accept"),
+    (68, "tree.left"), (69, "tree.right"), (70, "tree.found"), (71, "ig.root1"), (72, "ig.root2"), (73, "triangular.left"), (74, "triangular.right"),
+    (75, "dirichlet.gamma"), (76, "dirichlet.beta"), (81, "alias.own"), (82, "alias.alias"), (83, "skewnormal.general"),
+];
+
 pub const WORD_BUDGET: u64 = 100_000;
 pub const MEAN_WORDS_BOUND: f64 = 32.0;
 
@@ -173,6 +190,8 @@ pub struct RunOutcome {
     pub fired: u32,
     /// words consumed by the call in which the (first) fault fired
     pub words_in_faulted_call: u64,
+    /// reach-probe mask (path signature) of that call
+    pub mask_of_faulted_call: u128,
     /// word actually delivered at the first fault position
     pub violation: Option<(String, String, String)>, // class, detail, loc
     pub violating_call: u64,
@@ -190,11 +209,13 @@ pub fn run_args(obj: &dyn Obj, spec: &DistSpec, run: RunArgs<'_>, call_base: u64
         SimRng::with_faults(run.seed, run.faults.to_vec())
     };
     let mut d = Digest::new();
+    let _ = rand_distr::verif_hooks::take_probes(); // no leftovers from earlier work
     let mut out = RunOutcome {
         calls: 0,
         words: 0,
         fired: 0,
         words_in_faulted_call: 0,
+        mask_of_faulted_call: 0,
         violation: None,
         violating_call: 0,
         digest: 0,
@@ -205,9 +226,11 @@ pub fn run_args(obj: &dyn Obj, spec: &DistSpec, run: RunArgs<'_>, call_base: u64
         rng.budget = rng.pos.saturating_add(run.per_call_budget);
         mark_call(call_base);
         let r = guarded(|| obj.sample(&mut rng));
+        let mask = rand_distr::verif_hooks::take_probes();
         out.calls += 1;
         if rng.fired > fired_before && fired_before == 0 {
             out.words_in_faulted_call = rng.pos - before;
+            out.mask_of_faulted_call = mask;
         }
         match r {
             Caught::Ok(o) => {
@@ -277,7 +300,8 @@ fn make_sig(spec: &DistSpec, class: &str, loc: &str, run: &FaultRun) -> BTreeMap
     );
     sig.insert("class".into(), class.to_string());
     if !loc.is_empty() {
-        sig.insert("loc".into(), loc.to_string());
+        // file only: line numbers move with unrelated edits
+        sig.insert("loc".into(), loc.rsplit_once(':').map(|(f, _)| f.to_string()).unwrap_or_else(|| loc.to_string()));
     }
     if let Some(w) = delivered_word(run) {
         sig.insert("tags".into(), support::word_tags(w).join(","));
@@ -407,6 +431,17 @@ impl FaultEngine {
     }
 }
 
+/// The word-consumption bound is per scalar variate: a Dirichlet sample of length n is
+/// n (or n-1) gamma / beta variates.
+fn out_dim(spec: &DistSpec) -> f64 {
+    match spec.family {
+        Family::Dirichlet => spec.p.len() as f64,
+        Family::UnitCircle | Family::UnitDisc => 2.0,
+        Family::UnitSphere | Family::UnitBall => 3.0,
+        _ => 1.0,
+    }
+}
+
 fn trace_of(obj: &dyn Obj, run: &FaultRun) -> Vec<String> {
     let mut rng = SimRng::with_faults(run.seed, run.faults.clone()).traced();
     let mut calls = 0;
@@ -470,6 +505,14 @@ impl Engine for FaultEngine {
     fn judges(&self, class: &str) -> bool {
         self.wanted(class)
     }
+    fn hang_secs(&self) -> f64 {
+        // C03 does not judge hangs (C05 does): give up on a stuck call sooner
+        if self.prop == "C03" {
+            2.0
+        } else {
+            8.0
+        }
+    }
 
     fn hang_case(&self, ctx: &Ctx, index: usize, call: u64) -> Option<(BTreeMap<String, String>, Value)> {
         let cfgs = configs(ctx);
@@ -532,6 +575,7 @@ impl Engine for FaultEngine {
                             &pos.to_string(),
                             class,
                             &o.words_in_faulted_call.min(64).to_string(),
+                            &format!("{:x}", o.mask_of_faulted_call),
                         ]));
                     }
                     if o.violation.is_some() {
@@ -609,6 +653,7 @@ impl Engine for FaultEngine {
                             words: rng.pos,
                             fired: 1,
                             words_in_faulted_call: rng.pos - before,
+                            mask_of_faulted_call: 0,
                             violation: Some(vv),
                             violating_call: 0,
                             digest: 0,
@@ -643,10 +688,12 @@ impl Engine for FaultEngine {
             // calls grouped by the number of words they consumed: a proxy for the path
             // taken (retry, wedge, tail ...); the first two of each are kept with the
             // stream state at call start for the targeted injection of part (D)
-            let mut by_words: BTreeMap<u64, Vec<(u64, SimRng)>> = BTreeMap::new();
+            let mut by_words: BTreeMap<(u128, u64), Vec<(u64, SimRng)>> = BTreeMap::new();
+            let mut probe_counts = [0u64; 128];
+            let _ = rand_distr::verif_hooks::take_probes();
             while calls < n_calls {
                 let before = rng.pos;
-                let at_start = if by_words.len() < 24 && calls < 60_000 { Some(rng.clone()) } else { None };
+                let at_start = if by_words.len() < 40 && calls < 60_000 { Some(rng.clone()) } else { None };
                 rng.budget = rng.pos + WORD_BUDGET;
                 if calls & 0x3ff == 0 {
                     mark_call(run_id);
@@ -657,11 +704,17 @@ impl Engine for FaultEngine {
                 if used > max_words {
                     max_words = used;
                 }
+                let mut mask = rand_distr::verif_hooks::take_probes();
                 if let Some(st) = at_start {
-                    let e = by_words.entry(used).or_default();
-                    if e.len() < 2 && used > 0 {
+                    let e = by_words.entry((mask, used.min(24))).or_default();
+                    if e.is_empty() && used > 0 {
                         e.push((calls - 1, st));
                     }
+                }
+                while mask != 0 {
+                    let b = mask.trailing_zeros();
+                    probe_counts[b as usize] += 1;
+                    mask &= mask - 1;
                 }
                 let v = match r {
                     Caught::Ok(o) => {
@@ -679,6 +732,7 @@ impl Engine for FaultEngine {
                         words: rng.pos,
                         fired: 0,
                         words_in_faulted_call: 0,
+                        mask_of_faulted_call: 0,
                         violation: Some(vv),
                         violating_call: calls - 1,
                         digest: 0,
@@ -688,18 +742,29 @@ impl Engine for FaultEngine {
             }
             res.evaluations += calls;
             res.sim_words += rng.pos;
-            res.stat_max("distinct_words_per_call_values", by_words.len() as f64);
+            res.stat_max("distinct_paths_per_configuration", by_words.len() as f64);
+            for (i, c) in probe_counts.iter().enumerate() {
+                if *c > 0 {
+                    res.stat_sum(&format!("probe:{i}"), *c as f64);
+                }
+            }
+            for (m, u) in by_words.keys() {
+                keys.insert(hash_key(&[&label, "path", &format!("{m:x}"), &u.to_string()]));
+            }
 
             // ---- (D) targeted injection: the adversarial word is placed inside calls
             // that the *natural* stream drove down a rarer path (found above), at every
             // word position of that call.  Still a single-word deviation from a random
             // stream, i.e. inside the quantifier.
             if viol.is_none() {
-                let sub: Vec<&(&'static str, Inject)> =
-                    lattice.iter().filter(|(k, _)| *k == "F1" || *k == "F2").collect();
-                for (used, states) in &by_words {
+                // F1 and the pure-pattern members of F2 (94 words)
+                let sub: Vec<&(&'static str, Inject)> = lattice
+                    .iter()
+                    .filter(|(k, i)| *k == "F1" || (*k == "F2" && matches!(i, Inject::High { .. } | Inject::Word(_)) && !matches!(i, Inject::Word(w) if w & 0x7ff == 0x7ff && *w != !0)))
+                    .collect();
+                for ((pmask, used), states) in &by_words {
                     for (call_idx, st) in states {
-                        for j in 0..(*used).min(12) {
+                        for j in 0..(*used).min(8) {
                             run_id += 1;
                             if skips.contains(&(index as u64, run_id)) {
                                 continue;
@@ -724,7 +789,7 @@ impl Engine for FaultEngine {
                                 if r2.fired > 0 {
                                     res.fired("targeted", 1);
                                     let class = vv.as_ref().map(|v| v.0.as_str()).unwrap_or("ok");
-                                    keys.insert(hash_key(&[&label, "targeted", kind, &used.to_string(), &j.to_string(), class]));
+                                    keys.insert(hash_key(&[&label, "targeted", kind, &format!("{pmask:x}"), &used.to_string(), &j.to_string(), class]));
                                 }
                                 if let Some(vv) = vv {
                                     let fl = [Fault { pos, inject: *inj }];
@@ -734,6 +799,7 @@ impl Engine for FaultEngine {
                                         words: r2.pos,
                                         fired: r2.fired,
                                         words_in_faulted_call: r2.pos - before,
+                                        mask_of_faulted_call: 0,
                                         violation: Some(vv),
                                         violating_call: *call_idx,
                                         digest: 0,
@@ -747,6 +813,7 @@ impl Engine for FaultEngine {
             }
             let mean = rng.pos as f64 / calls.max(1) as f64;
             res.stat_max("mean_words_per_call", mean);
+            res.stat_max("mean_words_per_scalar_variate", mean / out_dim(spec));
             res.stat_max("max_words_in_one_call", max_words as f64);
             res.stat_sum("random_stream_calls", calls as f64);
             keys.insert(hash_key(&[&label, "random", &format!("{:.0}", mean * 4.0), &max_words.min(64).to_string()]));
@@ -761,7 +828,7 @@ impl Engine for FaultEngine {
                     max_calls: o.violating_call + 1,
                 };
                 self.report(&mut res, &mut seen, obj, spec, &run, &o);
-            } else if mean > MEAN_WORDS_BOUND && self.prop == "C05" {
+            } else if mean > MEAN_WORDS_BOUND * out_dim(spec) && self.prop == "C05" {
                 let run = FaultRun {
                     kind: "mean-words".into(),
                     spec: spec.clone(),
@@ -815,7 +882,7 @@ impl Engine for FaultEngine {
             }
             let mean = rng.pos as f64 / calls.max(1) as f64;
             println!("replay: mean words per call = {mean:.2} over {calls} calls");
-            if mean > MEAN_WORDS_BOUND {
+            if mean > MEAN_WORDS_BOUND * out_dim(&spec) {
                 out.push(Violation {
                     class: "mean-words".into(),
                     detail: format!("mean {mean:.1}"),
@@ -848,10 +915,23 @@ impl Engine for FaultEngine {
     }
 
     fn extra_evidence(&self, _ctx: &Ctx, stats: &BTreeMap<String, f64>) -> Value {
+        let mut hit = BTreeMap::new();
+        let mut never = Vec::new();
+        for (id, name) in PROBE_NAMES {
+            match stats.get(&format!("sum:probe:{id}")) {
+                Some(c) => {
+                    hit.insert(name.to_string(), *c as u64);
+                }
+                None => never.push(name.to_string()),
+            }
+        }
         json!({
+            "probes_hit": hit,
+            "probes_never_hit": never,
             "word_budget_per_call": WORD_BUDGET,
             "mean_words_bound": MEAN_WORDS_BOUND,
             "largest_mean_words_per_call_observed": stats.get("max:mean_words_per_call"),
+            "largest_mean_words_per_scalar_variate_observed": stats.get("max:mean_words_per_scalar_variate"),
             "largest_words_in_one_call_observed": stats.get("max:max_words_in_one_call"),
             "boundary_lattice_words": boundary_lattice().len(),
         })
